@@ -3,6 +3,8 @@
 //   usage: hv_feat --exec <corpus> --out <digests>      corpus = [u16 length][bytes]...
 //          hv_feat --replay <case>                      prints the readable trace of one case
 // Feature macros (HFSM2_ENABLE_*, HFSM2_DISABLE_TYPEINDEX) and HVF_PAYLOAD / HVF_SUBST / HVF_TASKCAP / HVF_MANUAL come from -D.
+// HVF_USE_PLANS (only in builds with HFSM2_ENABLE_PLANS): the program also edits plans and reports success/failure; such builds are only
+// compared with each other (payload type, task capacity, other features and flavour vary inside the group).
 #ifdef HV_DEV_FLAVOUR
 	#include <hfsm2/machine_dev.hpp>
 #else
@@ -65,7 +67,15 @@ struct St : FSM::State {
 	void enter(PlanControl& c) noexcept { c.context().rec(6, N); }
 	void reenter(PlanControl& c) noexcept { c.context().rec(7, N); }
 	void exit(PlanControl& c) noexcept { c.context().rec(8, N); }
-	void phase(FullControl& c, int m) noexcept { Ctx& x = c.context(); x.rec(m, N); if (Script* s = find(x, N, m)) if (s->action & 2) { request(c, s->type, s->dest); g_flags |= 2; } }
+	void phase(FullControl& c, int m) noexcept { Ctx& x = c.context(); x.rec(m, N); if (Script* s = find(x, N, m)) { if (s->action & 2) { request(c, s->type, s->dest); g_flags |= 2; }
+#ifdef HVF_USE_PLANS
+		if (N > 0 && (s->action & 4)) { if (s->type & 1) c.fail(); else c.succeed(); x.tr.push_back(0x20000000u | (uint32_t) ((s->type & 1) * 1000 + N)); g_flags |= 4; }
+#endif
+	} }
+#ifdef HVF_USE_PLANS
+	void planSucceeded(FullControl& c) noexcept { c.context().rec(11, N); FSM::State::planSucceeded(c); }
+	void planFailed(FullControl& c) noexcept { c.context().rec(12, N); FSM::State::planFailed(c); }
+#endif
 	void preUpdate(FullControl& c) noexcept { phase(c, 4); }
 	void update(FullControl& c) noexcept { phase(c, 2); }
 	void postUpdate(FullControl& c) noexcept { phase(c, 5); }
@@ -80,7 +90,7 @@ static inline uint64_t fnv(const void* p, size_t n, uint64_t h) { const uint8_t*
 static inline uint32_t mix(uint32_t a, uint32_t b) { uint32_t h = a * 2654435761u ^ (b + 0x9e3779b9u + (a << 6) + (a >> 2)); h ^= h >> 15; h *= 2246822519u; h ^= h >> 13; return h; }
 
 // case: records of 16 bytes: kind, type, dest, flags, env, 3 x (state, method, action, type, dest) [15 bytes used]
-int g_flags = 0; // bit0: the configuration changed, bit1: a callback issued a request
+int g_flags = 0; // bit0: the configuration changed, bit1: a callback issued a request, bit2: a state reported success/failure
 static uint64_t runCase(const uint8_t* p, size_t n, std::string* text) {
 	g_flags = 0; uint64_t lastCfg = 0; bool haveCfg = false;
 	Ctx x; std::memset(x.sel, 0, sizeof x.sel);
@@ -92,14 +102,20 @@ static uint64_t runCase(const uint8_t* p, size_t n, std::string* text) {
 #ifdef HVF_MANUAL
 	fsm.enter();
 #endif
-	uint64_t h = 1469598103934665603ull; char buf[160];
+	uint64_t h = 1469598103934665603ull; char buf[160]; int appended = 0; (void) appended;
 	auto observe = [&](const char* what) {
 		h = fnv(x.tr.data(), x.tr.size() * 4, h);
 		uint8_t cfg[HV_NS * 2]; for (int s = 0; s < HV_NS; ++s) { cfg[2 * s] = fsm.isActive((StateID) s); cfg[2 * s + 1] = fsm.isResumable((StateID) s); }
 		h = fnv(cfg, sizeof cfg, h);
+		std::string planText;
+#ifdef HVF_USE_PLANS
+		for (int r = 0; r < HV_REGION_COUNT; ++r) { auto p = fsm.plan((hfsm2::RegionID) r); int k = 0;
+			for (auto it = p.begin(); it && k < 200; ++it, ++k) { const uint32_t w[3] = {(uint32_t) r, (uint32_t) it->origin, (uint32_t) it->destination}; h = fnv(w, sizeof w, h);
+				if (text) { std::snprintf(buf, sizeof buf, " r%d:%d->%d", r, (int) it->origin, (int) it->destination); planText += buf; } } }
+#endif
 		{ const uint64_t ch = fnv(cfg, sizeof cfg, 7); if (haveCfg && ch != lastCfg) g_flags |= 1; lastCfg = ch; haveCfg = true; }
-		if (text) { *text += what; *text += ":"; for (uint32_t e : x.tr) { if (e & 0x40000000u) std::snprintf(buf, sizeof buf, " [pending %u]", e & 0xFFFF); else std::snprintf(buf, sizeof buf, " %u.%u", e % 1000, e / 1000); *text += buf; }
-			*text += " | active:"; for (int s = 0; s < HV_NS; ++s) if (cfg[2 * s]) { std::snprintf(buf, sizeof buf, " %d", s); *text += buf; } *text += " resumable:"; for (int s = 0; s < HV_NS; ++s) if (cfg[2 * s + 1]) { std::snprintf(buf, sizeof buf, " %d", s); *text += buf; } *text += "\n"; }
+		if (text) { *text += what; *text += ":"; for (uint32_t e : x.tr) { if (e & 0x40000000u) std::snprintf(buf, sizeof buf, " [pending %u]", e & 0xFFFF); else if (e & 0x10000000u) std::snprintf(buf, sizeof buf, " [accepted %u]", e & 1); else if (e & 0x20000000u) std::snprintf(buf, sizeof buf, " %s(%u)", (e & 0xFFFF) >= 1000 ? "fail" : "succeed", (e & 0xFFFF) % 1000); else std::snprintf(buf, sizeof buf, " %u.%u", e % 1000, e / 1000); *text += buf; }
+			*text += " | active:"; for (int s = 0; s < HV_NS; ++s) if (cfg[2 * s]) { std::snprintf(buf, sizeof buf, " %d", s); *text += buf; } *text += " resumable:"; for (int s = 0; s < HV_NS; ++s) if (cfg[2 * s + 1]) { std::snprintf(buf, sizeof buf, " %d", s); *text += buf; } if (!planText.empty()) *text += " plans:" + planText; *text += "\n"; }
 		x.tr.clear();
 	};
 	observe("activation");
@@ -109,10 +125,25 @@ static uint64_t runCase(const uint8_t* p, size_t n, std::string* text) {
 		x.nsc = 0;
 		for (int k = 0; k < 3; ++k) { const uint8_t* e = r + 5 + k * 3; // state, method|action, type|dest packed
 			Script sc; sc.state = e[0] % HV_NS; sc.method = (e[1] & 7) % 6; sc.action = (e[1] >> 3) & 7; sc.type = (e[2] & 7) % 5; sc.dest = (e[0] * 7 + (e[2] >> 3)) % HV_NS; if (sc.dest == 0 && sc.type == 4) sc.dest = 1; sc.used = false;
-			if (sc.method >= 2) sc.action &= 6; // only guards cancel
+			if (sc.method >= 2) sc.action &= 6; // only guards cancel (bit 2: react consumes; with HVF_USE_PLANS the update phases report success/failure)
 			if (sc.action) x.sc[x.nsc++] = sc; }
 		int type = r[1] % 5, dest = r[2] % HV_NS; if (dest == 0 && type == 4) dest = 1;
-		switch (r[0] % 6) {
+#ifdef HVF_USE_PLANS
+		const int kind = r[0] % 8;
+#else
+		const int kind = r[0] % 8 % 6;
+#endif
+		switch (kind) {
+#ifdef HVF_USE_PLANS
+		case 6: { const int region = r[1] % HV_REGION_COUNT; int head = 0; for (int s = 0; s < HV_NS; ++s) if (HV_NODES[s].kind != 0 && HV_NODES[s].region == region) head = s;
+			const int size = HV_NODES[head].size; const int origin = head + 1 + r[2] % (size - 1);
+			const int dst = (r[3] & 1) ? origin : (r[3] & 2) ? head + 1 + (r[3] >> 2) % (size - 1) : 1 + (r[3] >> 2) % (HV_NS - 1);
+			auto pl = fsm.plan((hfsm2::RegionID) region); bool ok = false;
+			if (appended < 24) { ++appended; switch ((r[3] >> 6) % 3) { case 0: ok = pl.change((StateID) origin, (StateID) dst); break; case 1: ok = pl.restart((StateID) origin, (StateID) dst); break; default: ok = pl.resume((StateID) origin, (StateID) dst); break; } }
+			x.tr.push_back(0x10000000u | (uint32_t) ok);
+			std::snprintf(buf, sizeof buf, "plan(%d).append(%d->%d)", region, origin, dst); observe(buf); break; }
+		case 7: { const int region = r[1] % HV_REGION_COUNT; fsm.plan((hfsm2::RegionID) region).clear(); std::snprintf(buf, sizeof buf, "plan(%d).clear", region); observe(buf); break; }
+#endif
 		case 0: fsm.update(); observe("update"); break;
 		case 1: fsm.react(Ev{}); observe("react"); break;
 		case 2: request(fsm, type, dest); std::snprintf(buf, sizeof buf, "%s(%d)", TTN[type], dest); observe(buf); break;
